@@ -1,7 +1,6 @@
 """C09 — elitist algorithms never lose their best solutions."""
 import math
 import random
-import signal
 import traceback
 from fractions import Fraction
 
@@ -205,7 +204,8 @@ def lattice_problem(nobjs, conmode, maxdirs, levels, shift=0, scale=1.0):
       conmode "graded"   violation = a + b - L where positive (many levels)
               "passfail" constraint value 1 (<= 0 wanted) unless the point is in a SMALL feasible region: violation in {0, 1}
               "ne"       a "!=0" constraint that is 0 outside the feasible region: violation in {0, 1}
-              "levels2"  violation in {0, 1, 2}: large groups of infeasible points share one positive level"""
+              "levels2"  violation in {0, 1, 2}: large groups of infeasible points share one positive level
+              "eq"       an "==0" constraint that no lattice point satisfies: every solution is infeasible, GRADED violation"""
     from platypus import Problem, Real, Direction
     nconstrs = 1 if conmode else 0
 
@@ -217,7 +217,7 @@ def lattice_problem(nobjs, conmode, maxdirs, levels, shift=0, scale=1.0):
                 if mx:
                     self.directions[i] = Direction.MAXIMIZE
             if nconstrs:
-                self.constraints[:] = "!=0" if conmode == "ne" else "<=0"
+                self.constraints[:] = "!=0" if conmode == "ne" else ("==0" if conmode == "eq" else "<=0")
 
         def evaluate(self, solution):
             L = levels
@@ -238,6 +238,8 @@ def lattice_problem(nobjs, conmode, maxdirs, levels, shift=0, scale=1.0):
                 feasible_small = (a == M and b <= 1) or (a + b + c == 0)
                 if conmode in (True, "graded"):
                     val = float(a + b - L)
+                elif conmode == "eq":
+                    val = float(a + 2 * b + 1)          # "==0" is never satisfied: the whole run is infeasible, violation graded 1 .. 3M+1
                 elif conmode == "passfail":
                     val = 0.0 if feasible_small else 1.0
                 elif conmode == "ne":
@@ -319,6 +321,27 @@ def build_lattice(cfg, _problem=None, _generator=None):
     return alg
 
 
+def build_floateq(cfg):
+    """single-objective float problems whose constraints are practically never satisfied during a run (an equality on a real
+    variable and a tight inequality): the whole run is an all-infeasible phase with GRADED violations"""
+    from platypus import Problem, Real, Direction, GeneticAlgorithm, EvolutionaryStrategy
+    random.seed(cfg["seed"])
+    mx = bool(cfg["dirs"][0])
+    p = Problem(3, 1, 2)
+    p.types[:] = Real(0.0, 1.0)
+    p.constraints[0] = "==0"
+    p.constraints[1] = "<=0"
+    if mx:
+        p.directions[0] = Direction.MAXIMIZE
+
+    def f(x):
+        o = (x[0] - 0.7) ** 2 + (x[1] - 0.2) ** 2 + (x[2] - 0.9) ** 2
+        return [-o if mx else o], [x[0] - 0.123456, x[1] + x[2] - 0.003]
+    p.function = f
+    cls = GeneticAlgorithm if cfg["name"] == "GA" else EvolutionaryStrategy
+    return cls(p, population_size=cfg["pop"], offspring_size=cfg.get("off", cfg["pop"]))
+
+
 def build_registry(cfg):
     """float-valued problems of the shared registry (harness/vlib/algos.py)"""
     from platypus import Archive
@@ -337,10 +360,6 @@ def build_registry(cfg):
 # ----------------------------------------------------------------------------
 class Hang(Exception):
     pass
-
-
-def _alarm(signum, frame):
-    raise Hang()
 
 
 class Obs:
@@ -374,7 +393,7 @@ def archive_of(alg):
 def observe(cfg, steps):
     """run the real algorithm for `steps` calls of step(), logging each one"""
     from platypus import TerminationCondition, Solution
-    alg = build_lattice(cfg) if cfg["problem"] == "lattice" else build_registry(cfg)
+    alg = build_lattice(cfg) if cfg["problem"] == "lattice" else (build_floateq(cfg) if cfg["problem"] == "floateq" else build_registry(cfg))
     name = cfg["name"]
     obs = Obs()
     obs.alg = alg
@@ -960,6 +979,13 @@ def gen_configs(ctx):
                     levels=rng.choice([6, 8]), steps=10, **kw)
         for name in SINGLE:
             add(name, "lattice", 1, rng.choice(["passfail", "ne", "levels2"]), 5, [rng.random() < 0.5], steps=10)
+        # single objective, the WHOLE run infeasible with graded violations (equality constraints that are never met): the order is
+        # violation first, then the objective in its direction
+        for name in SINGLE:
+            for mxd in (False, True):
+                add(name, "lattice", 1, "eq", rng.choice([3, 5, 7]), [mxd], levels=8, steps=12)
+                add(name, "floateq", 1, True, rng.choice([4, 6, 8]), [mxd], steps=12)
+            add(name, "lattice", 1, "eq", rng.choice([2, 4, 6]), [rng.random() < 0.5], levels=6, steps=12, off=rng.choice([2, 9]))
         # epsilon archives with NEGATIVE working values: maximised objectives and/or minimised objectives shifted below zero, boxes
         # that hold several lattice points (eps 4 / 8 on the integer lattice, eps 1 / 2 on the half-integer one)
         for name, pop in (("EpsMOEA", 4), ("EpsMOEA", 6), ("EpsNSGAII", 4), ("EpsNSGAII", 6), ("OMOPSO", 5), ("OMOPSO", 4), ("CMAES", 6), ("CMAES", 4)):
@@ -1069,7 +1095,8 @@ def run(ctx):
         "objectives": sorted(set(c["nobjs"] for c in cfgs)), "population_sizes": sorted(set(c["pop"] for c in cfgs)),
         "constrained_runs": sum(1 for c in cfgs if c["con"]), "pass_fail_or_few_level_constraint_runs": sum(1 for c in cfgs if isinstance(c["con"], str)),
         "runs_with_negative_objective_values": sum(1 for c in cfgs if c.get("shift")), "eps_archive_runs_with_negative_working_values": sum(1 for c in cfgs if c.get("eps") and (c.get("shift") or any(c["dirs"]))), "runs_with_maximised_objective": sum(1 for c in cfgs if any(c["dirs"])),
-        "lattice_runs": sum(1 for c in cfgs if c["problem"] == "lattice"), "float_runs": sum(1 for c in cfgs if c["problem"] != "lattice")}
+        "lattice_runs": sum(1 for c in cfgs if c["problem"] == "lattice"), "float_runs": sum(1 for c in cfgs if c["problem"] != "lattice"),
+        "single_objective_runs_infeasible_throughout": sum(1 for c in cfgs if c["con"] == "eq" or c["problem"] == "floateq")}
     warm = {"k<n": 0, "k=n": 0, "k>n": 0, "from_previous_run": 0, "hand_made": 0}
     for c in cfgs:
         if c.get("inject"):
